@@ -42,6 +42,65 @@ def read_sizes(grant: int, segs) -> list[int]:
     return out
 
 
+class BackpressureWriter(fakes.FakeWriter):
+    """A transport under backpressure, as asyncio's selector transport behaves (Python 3.12): what the
+    kernel does not take at once is kept BY REFERENCE (a memoryview of the caller's object, no copy)
+    and handed over later; drain() returns at once while less than the high-water mark (64 KiB) is
+    queued.  ``delay`` = how long the receiver lets the data wait."""
+
+    HIGH_WATER = 64 * 1024
+
+    def __init__(self, endpoint, peername, sockname, delay: float):
+        super().__init__(endpoint, peername, sockname)
+        self.delay = delay
+        self.queue = []
+        self.queued = 0
+        self._waiters = []
+
+    def write(self, data):
+        if self._closing:
+            if self.ep.write_after_close_raises:
+                raise ConnectionResetError('write on closed transport')
+            return
+        if self.ep.write_error is not None:
+            raise self.ep.write_error
+        view = memoryview(data)          # keeps the object, copies nothing
+        self.queue.append(view)
+        self.queued += len(view)
+        asyncio.get_event_loop().call_later(self.delay, self._flush_one)
+
+    def _flush_one(self):
+        if not self.queue:
+            return
+        view = self.queue.pop(0)
+        self.queued -= len(view)
+        if not self._closing:
+            self.ep._client_wrote(bytes(view))    # only now the bytes leave the process
+        if self.queued < self.HIGH_WATER:
+            for w in self._waiters:
+                if not w.done():
+                    w.set_result(None)
+            self._waiters.clear()
+
+    async def drain(self):
+        if self.ep.drain_error is not None:
+            raise self.ep.drain_error
+        if self._closing:
+            raise ConnectionResetError('Connection lost')
+        if self.queued >= self.HIGH_WATER:
+            w = asyncio.get_event_loop().create_future()
+            self._waiters.append(w)
+            await w
+        else:
+            await asyncio.sleep(0)
+
+    def close(self):
+        # a graceful close sends what is still queued first
+        while self.queue:
+            self._flush_one()
+        super().close()
+
+
 class Side:
     def __init__(self):
         self.W = world.World()
@@ -94,9 +153,11 @@ class Side:
         self.W.close()
 
     # -- connections --------------------------------------------------------------------------
-    def conn(self, typ, username='bob'):
+    def conn(self, typ, username='bob', backpressure=None):
         from aioslsk.network.connection import PeerConnection, ConnectionState
         ep = fakes.Endpoint(self.W.net, label=typ)
+        if backpressure is not None:
+            ep.writer = BackpressureWriter(ep, ep.writer._peername, ep.writer._sockname, backpressure)
         c = PeerConnection('10.0.0.9', 40000, self.client.network, connection_type=typ, incoming=True,
                            username=username)
         c._reader, c._writer = ep.reader, ep.writer
@@ -307,7 +368,7 @@ class Side:
 
     # -- uploads ------------------------------------------------------------------------------
     def upload_attempt(self, src: bytes, filesize: int, offset_bytes: bytes | None, kbps=0, cut=None,
-                       peer_closes=True, close_kind='eof', osplit=None, msg_mode=None):
+                       peer_closes=True, close_kind='eof', osplit=None, msg_mode=None, backpressure=None):
         """One upload attempt.  offset_bytes: what the peer sends as offset (8 bytes; fewer or None:
         the connection ends before the offset is complete).  cut=k: the first send that starts when
         >= k file bytes were written fails.  Returns the observation dict."""
@@ -326,7 +387,7 @@ class Side:
             await self.mgr.add(tr)
             await tr.state.queue()
         self.W.run(setup())
-        fc, fep = self.conn(PeerConnectionType.FILE)
+        fc, fep = self.conn(PeerConnectionType.FILE, backpressure=backpressure)
         fc.incoming = False
         self.next_file_conn = (fc, fep)
         self.up_limiter = self.limiter(kbps)
@@ -500,8 +561,8 @@ class Pair:
     """alice downloads from bob."""
 
     def __init__(self, src: bytes, faults, kbps_down=0, kbps_up=0, local0: bytes | None = None,
-                 lat_p: float = 0.02, lat_f: float = 0.02):
-        self.lat_p, self.lat_f = lat_p, lat_f
+                 lat_p: float = 0.02, lat_f: float = 0.02, bp: float | None = None):
+        self.lat_p, self.lat_f, self.bp = lat_p, lat_f, bp
         self.loop = vloop.new_loop(1000.0)
         self.net = fakes.FakeNet().install()
         self.tmp = Path(tempfile.mkdtemp(prefix='verif_c04_'))
@@ -567,6 +628,9 @@ class Pair:
                 a = fakes.Endpoint(self.net, peername=(host, port), sockname=(self.info[other]['ip'], 40000 + len(self.links)))
                 # connections are opened alternately for messages (P) and files (F); which is which is only
                 # known from the first frame, so the latency is chosen from who connects: bob -> alice = file
+                if self.bp is not None and other == 'bob':
+                    # the uploader's side of the file connection is under backpressure
+                    a.writer = BackpressureWriter(a, a.writer._peername, a.writer._sockname, self.bp)
                 self.links.append(CutLink(self, a, b, self.lat_f if other == 'bob' else self.lat_p))
                 return a
         return ConnectionRefusedError('unknown host')
